@@ -321,10 +321,24 @@ def r8(rr, repo):
         not_gray = any(k.startswith('eq(') and "'GRAY'" in k and 'format' in k and v is False for k, v in p.pc)
         rr.ob('a 3-channel array is labelled only after GRAY has been ruled out for the label', not_gray, mod, lab[0].node, witness=p.pc_text()[-200:], key='colour-never-labelled-gray')
     rr.floor('construction paths that label a 3-channel array', nlab, 1, mod, fn)
-    relabel = [n for n in walk_scope(fn) if isinstance(n, ast.If) and any(isinstance(x, ast.Raise) for x in n.body) and "'GRAY'" in U(n.test) and ('len(' in U(n.test) or 'ndim' in U(n.test))
-               and any(pol and f'isinstance({P_img}, Frame)' in U(t) for t, pol in q.guards_of(n, stop=fn))]
-    rr.ob('relabelling an existing frame is refused when it would cross between GRAY and colour (GRAY label <=> 2-D image)', len(relabel) == 1 and '!=' in U(relabel[0].test), mod,
-          relabel[0] if relabel else fn, witness=U(relabel[0].test)[:120] if relabel else 'no such check in the Frame branch of the constructor', key='relabel-keeps-grayness')
+    # relabelling: on every path that completes with a re-declared label L, the path condition says that (L is GRAY) <=> (the pixels are 2-D) - tested on the label that
+    # is actually stored (a Frame may be passed as `format`; the label is what validate_format_or_Frame makes of it), not on the raw argument
+    nrel = 0
+    for p in paths:
+        if p.outcome is not None and p.outcome[0] == 'raise':
+            continue
+        stl = [e for e in p.events if e.kind == 'store' and e.term == 'self._Frame__shapef' and e.args[0].startswith(f'({P_img}._Frame__shapef[0], ')]
+        if not stl:
+            continue
+        nrel += 1
+        label = stl[0].args[0][len(f'({P_img}._Frame__shapef[0], '):-1]
+        want = {f"eq({label} == 'GRAY', len({P_img}._Frame__shapef[0]) == 2)", f"eq(len({P_img}._Frame__shapef[0]) == 2, {label} == 'GRAY')",
+                f"eq('GRAY' == {label}, len({P_img}._Frame__shapef[0]) == 2)"}
+        alt = {k.replace(f'self._Frame__shapef[1]', label) for k, v in p.pc if v is True}
+        okl = any(k in want for k in alt)
+        rr.ob('relabelling an existing frame is refused when it would cross between GRAY and colour: a completed relabel has tested (stored label is GRAY) <=> (2-D pixels)', okl, mod, stl[0].node,
+              witness=f'label {label[:60]}; path: {p.pc_text()[-220:]}', key='relabel-keeps-grayness')
+    rr.floor('completed relabelling paths of Frame.__init__', nrel, 1, mod, fn)
     # invalid arrays are refused
     bad = [p for p in paths if p.outcome is not None and p.outcome[0] == 'raise']
     rr.floor('refusing paths of Frame.__init__', len(bad), 2, mod, fn)
